@@ -137,7 +137,31 @@ type AxiomSpec struct {
 	File    string
 }
 
+// FrameSpec is a whole-program frame obligation decided by SSA footprint analysis (frame.go).
+type FrameSpec struct {
+	Name       string
+	Roots      []string   // function keys; empty: every in-repo function
+	WritesOnly []FrameRule
+	ReadsOnly  []FrameRule
+	NoWrite    []string   // types none of whose fields may be stored to (except into objects allocated by the storing function)
+	NoGlobalStore bool
+	GlobalsExcept []string
+	NoCall     []FrameRule // Fields = callee names (ssa String()), Funcs = functions allowed to call them
+	NoDirectRead []string  // interface types whose Read method must not be invoked by in-repo code in the reach set
+	MapRangeOnly []string  // functions allowed to range over a map
+	HasMapRange  bool
+	GlobalAddrOnly []string // callee name prefixes that may receive the address of a package-level variable
+	PkgPath    string
+	File       string
+	Src        string
+}
+type FrameRule struct {
+	Fields []string
+	Funcs  []string
+}
+
 type Specs struct {
+	Frames  map[string]*FrameSpec
 	Funcs   map[string]*FuncSpec // by Kind+":"+Ref-resolved key
 	Preds   map[string]*PredSpec
 	SpecFns map[string]*SpecFn
@@ -224,7 +248,7 @@ type parser struct {
 	file string
 }
 
-var itemKw = map[string]bool{"pred": true, "spec": true, "ghost": true, "lemma": true, "iface": true, "func": true, "extern": true, "axiom": true, "package": true}
+var itemKw = map[string]bool{"frame": true, "pred": true, "spec": true, "ghost": true, "lemma": true, "iface": true, "func": true, "extern": true, "axiom": true, "package": true}
 var clauseKw = map[string]bool{"requires": true, "ensures": true, "modifies": true, "reads": true, "panics": true, "decreases": true,
 	"checks": true, "inline": true, "trusted": true, "loop": true, "invariant": true, "pure": true, "returns": true, "nilable": true, "params": true, "nosafety": true, "fresh": true, "ghostset": true, "bounded": true, "unknown": true}
 
@@ -671,6 +695,36 @@ func (p *parser) parseFuncRef() string {
 	return b.String()
 }
 
+// parseFuncRef2 reads a dotted/slashed name (function key, Type.field, pkg/path.Name) as raw text.
+func (p *parser) parseFuncRef2() string {
+	var b strings.Builder
+	if p.isOp("(") || p.isOp("*") {
+		// (*pkg.T).M form
+		depth := 0
+		for {
+			t := p.next()
+			b.WriteString(t.s)
+			if t.s == "(" {
+				depth++
+			}
+			if t.s == ")" {
+				depth--
+				if depth == 0 {
+					break
+				}
+			}
+		}
+	} else {
+		b.WriteString(p.ident())
+	}
+	for p.isOp(".") || p.isOp("/") || p.isOp("$") || p.isOp("-") {
+		b.WriteString(p.next().s)
+		t := p.next()
+		b.WriteString(t.s)
+	}
+	return b.String()
+}
+
 func parseSpecText(file, pkgPath, src string, sp *Specs) (err error) {
 	defer func() {
 		if r := recover(); r != nil {
@@ -749,6 +803,61 @@ func parseSpecText(file, pkgPath, src string, sp *Specs) (err error) {
 				}
 			}
 			sp.Lemmas = append(sp.Lemmas, l)
+		case "frame":
+			fs := &FrameSpec{Name: p.ident(), PkgPath: pkgPath, File: file}
+			readList := func() []string {
+				var out []string
+				for {
+					out = append(out, p.parseFuncRef2())
+					if p.isOp(",") {
+						p.next()
+						continue
+					}
+					return out
+				}
+			}
+			for p.peek().k == "id" && !itemKw[p.peek().s] {
+				switch c := p.next().s; c {
+				case "roots":
+					fs.Roots = append(fs.Roots, readList()...)
+				case "writesonly", "readsonly", "nocall":
+					r := FrameRule{Fields: readList()}
+					if p.isId("in") {
+						p.next()
+						r.Funcs = readList()
+					}
+					switch c {
+					case "writesonly":
+						fs.WritesOnly = append(fs.WritesOnly, r)
+					case "readsonly":
+						fs.ReadsOnly = append(fs.ReadsOnly, r)
+					default:
+						fs.NoCall = append(fs.NoCall, r)
+					}
+				case "nowrite":
+					fs.NoWrite = append(fs.NoWrite, readList()...)
+				case "noglobalstore":
+					fs.NoGlobalStore = true
+					if p.isId("except") {
+						p.next()
+						fs.GlobalsExcept = readList()
+					}
+				case "nodirectread":
+					fs.NoDirectRead = append(fs.NoDirectRead, readList()...)
+				case "maprangeonly":
+					fs.HasMapRange = true
+					if p.isId("in") {
+						p.next()
+					}
+					fs.MapRangeOnly = append(fs.MapRangeOnly, readList()...)
+				case "globaladdronly":
+					fs.GlobalAddrOnly = append(fs.GlobalAddrOnly, readList()...)
+				default:
+					p.p--
+					p.fail("unknown frame clause %q", c)
+				}
+			}
+			sp.Frames[fs.Name] = fs
 		case "func", "extern", "iface":
 			f := &FuncSpec{Kind: kw, Loops: map[int]*LoopSpec{}, Nilable: map[string]bool{}, File: file, PkgPath: pkgPath}
 			f.Ref = p.parseFuncRef()
@@ -885,7 +994,7 @@ func parseSpecText(file, pkgPath, src string, sp *Specs) (err error) {
 }
 
 func newSpecs() *Specs {
-	return &Specs{Funcs: map[string]*FuncSpec{}, Preds: map[string]*PredSpec{}, SpecFns: map[string]*SpecFn{}, Ghosts: map[string]*GhostSpec{}}
+	return &Specs{Frames: map[string]*FrameSpec{}, Funcs: map[string]*FuncSpec{}, Preds: map[string]*PredSpec{}, SpecFns: map[string]*SpecFn{}, Ghosts: map[string]*GhostSpec{}}
 }
 
 // loadSpecs reads //@ comments from every verif_contracts.go under the repository, and every *.gvc under externDir.
